@@ -586,3 +586,56 @@ def hashseed_task(tname):
     if not uniq:
         res['vacuity'].append('hashseed %s: no setting' % tname)
     return res
+
+
+# programs in which names are shared between the namespaces / many names exist: which one wins, and the order of the
+# reported tables, must not depend on the string hash seed of the process
+HS_PROGRAMS = [
+    'buf = 0x7f\naddi x1, x0, buf\nbuf:\ndw buf\naddi x2, x0, buf',
+    'start:\nsize = 12\nsize:\nli x5, size\ndw size\nj start',
+    'a:\nb:\nc:\nd:\ne:\nf:\ng:\nh:\naddi x8, x8, 1\nj a\nbeq x8 x0 h\ndw e\ndw %offset(c)',
+    'K1 = 1\nK2 = K1 + 1\nK3 = K2 * 2\nK4 = K3 | K1\nK5 = K4 << K2\ndw K5\naddi x1, x0, K4\nK1:\nj K1',
+    's1:\naddi s1, s1, 1\nt0:\nli t0, 5\nj s1\nbeqz t0 t0',
+    'x = 3\ny = x + 1\nx:\ny:\ndb x\ndb y\nli x5, y',
+    'n = 4\naddi x8, x8, n\nn:\naddi x8, x8, n\nc.addi x8, n\nj n',
+]
+
+
+def hashseed_programs_task():
+    import json as _json
+    import os as _os
+    import subprocess
+    import sys as _sys
+    import tempfile
+    res = TaskResult('hashseed:programs')
+    jobs = [dict(program=src, compress=c) for src in HS_PROGRAMS for c in (False, True)]
+    jf = tempfile.NamedTemporaryFile('w', suffix='.json', delete=False)
+    _json.dump(jobs, jf)
+    jf.close()
+    worker = _os.path.join(common.VERIF, 'tools', 'hs_worker.py')
+    results = {}
+    try:
+        for seed in ('0', '1', '2', '3', '5', '17', '12345', '4242'):
+            env = dict(_os.environ, PYTHONHASHSEED=seed, VERIF_REPO=common.REPO)
+            pr = subprocess.run([_sys.executable, worker, jf.name], capture_output=True, text=True, env=env, timeout=600)
+            if pr.returncode != 0:
+                res.inconc('hashseed worker failed under seed %s: %s' % (seed, pr.stderr[-300:]))
+                continue
+            results[seed] = _json.loads(pr.stdout.strip().splitlines()[-1])
+    finally:
+        _os.unlink(jf.name)
+    seeds = sorted(results)
+    res['paths'] = len(jobs)
+    res['decisions'] = len(jobs) * len(seeds)
+    for i, j in enumerate(jobs):
+        outs = {s_: results[s_][i] for s_ in seeds}
+        ok = len({_json.dumps(o) for o in outs.values()}) == 1
+        res['validated'] += len(seeds)
+        if not ok:
+            path = common.write_replay('C16', 'hashseed_program_%d' % i, dict(kind='hashseed', property='C16', setting=j, results=outs,
+                                                                              what='result depends on PYTHONHASHSEED'))
+            res['violations'].append(dict(harness='hashseed', kind='hash-seed-dependent', setting=j,
+                                          results={s_: o[:2] for s_, o in outs.items()}, replay=path))
+        res.oblig(ok)
+    res['samples'].append(dict(programs=len(HS_PROGRAMS), hash_seeds=seeds))
+    return res
